@@ -211,6 +211,9 @@ def check(repo, res, tier):
     res.rule('C12.M7', 'adopted C18.V4: the stored column counts an observation in exactly one tier -- the receiving tier '
                        'appends it when (and only when) its transfer completes')
     borrow(repo, res, tier, c18, {'C18.V4'}, 'C12.M7')
+    from . import c02 as _c02
+    res.rule('C12.M9', 'adopted C02.P10: the cluster counters behind the table start as the sizes of their containers')
+    borrow(repo, res, tier, _c02, {'C02.P10'}, 'C12.M9')
     from .c10 import check_shared_state
     check_shared_state(repo, res, 'C12.M8', 'the counters the table reports are shared with other Cluster objects: a second '
                        'simulation in the process starts with the first one\'s numbers')
